@@ -1,5 +1,5 @@
 """Property -> rule list. Each rule: (id, text, function(ctx, report))."""
-import rules_cmd, rules_expire
+import rules_cmd, rules_expire, rules_conn
 
 
 def rules_for(pid):
@@ -25,7 +25,19 @@ def _c02():
     ]
 
 
+def _c05():
+    return [
+        ("R-ERRPROP", "an Err from executing a frame never leaves the connection loop except for Connection/Io errors: it is converted into an error reply", rules_conn.rule_errprop),
+        ("R-REPLY1", "each iteration of the frame loop pushes exactly one reply; the loop is not left mid-batch", rules_conn.rule_reply1),
+        ("R-PARSEERR", "a protocol error from parse_frame is queued/sent as an error reply on every path (no silent break)", rules_conn.rule_parseerr),
+        ("R-PARSEERR-CLOSE", "the consumer of queued protocol errors pushes an error reply and requests the connection to be closed", rules_conn.rule_parseerr_close),
+        ("R-CRLF", "line-framed reply variants write payload bytes only through a CR/LF-inspecting function; bulk strings write len() of the slice they write", rules_conn.rule_crlf),
+        ("R-TXNORESP", "nothing reachable from EXEC can yield NoResponse or register a blocked client", rules_conn.rule_txnoresp),
+    ]
+
+
 REGISTRY = {
     "C01": _c01,
     "C02": _c02,
+    "C05": _c05,
 }
